@@ -46,6 +46,7 @@ typedef struct {
 } party;
 
 static cfg_t CFG;
+static octet* EXACT_IN[2];   /* the message a party is working on, in a block of exactly its length */
 static party PT[2];
 static unsigned TAPE_FLIP[2];   /* run_bake_tape: invert the lowest bit of that draw of that party */
 static channel CHS[2];
@@ -143,11 +144,22 @@ static void party_run(party* p)
 /* ----------------------------------------------------------- step drivers */
 static octet INB[2][CH_MAXMSG + 8], OUTB[2][CH_MAXMSG + 8];
 
+/* a received message is handed to the step function in a block of exactly its length: a step
+   that reads a fixed-size field out of a shorter message leaves the block */
+static octet* exact_in(int side, const octet* msg, size_t len)
+{
+	if (EXACT_IN[side])
+		sk_free(EXACT_IN[side]);
+	EXACT_IN[side] = (octet*)sk_alloc(len ? len : 1);
+	memcpy(EXACT_IN[side], msg, len);
+	return EXACT_IN[side];
+}
 #define RECV(p, buf, lenp, want, exact)\
 	do {\
-		err_t c_ = ch_recv_msg(&(p)->ep, buf, lenp, CH_MAXMSG - 64);\
+		err_t c_ = ch_recv_msg(&(p)->ep, INB[(p)->side], lenp, CH_MAXMSG - 64);\
 		if (c_ != ERR_OK) { (p)->rc = c_; (p)->failed_call = "receive"; return; }\
 		if ((exact) && *(lenp) != (want)) { (p)->rc = ERR_BAD_LENGTH; (p)->failed_call = "receive(length)"; return; }\
+		buf = exact_in((p)->side, INB[(p)->side], *(lenp));\
 	} while (0)
 #define SEND(p, buf, len)\
 	do {\
@@ -476,6 +488,7 @@ static void setup_party(int s, uint64_t tape_seed, int apply_mismatch)
 	memset(p, 0, sizeof(*p));
 	p->fail_at = fail_at;
 	p->side = s;
+	EXACT_IN[s] = 0; /* (the arena was reset: blocks of the previous session are gone) */
 	p->st.kca = c->kca, p->st.kcb = c->kcb;
 	p->st.helloa = c->hello_null[0] ? 0 : c->hello[0], p->st.helloa_len = c->hello_null[0] ? 0 : c->hello_len[0];
 	p->st.hellob = c->hello_null[1] ? 0 : c->hello[1], p->st.hellob_len = c->hello_null[1] ? 0 : c->hello_len[1];
